@@ -48,8 +48,8 @@ def specs(tier):
     def img(shape, name="p"):
         return symarr(name, shape)
 
-    def add(name, mods, fn, build, batch=None, light=False, concrete=None):
-        S[name] = dict(mods=mods, fn=fn, build=build, batch=batch, light=light, concrete=concrete)
+    def add(name, mods, fn, build, batch=None, light=False, concrete=None, history=None):
+        S[name] = dict(mods=mods, fn=fn, build=build, batch=batch, light=light, concrete=concrete, history=history)
     C = "image_processing.centroiders"
     add("centre_of_gravity 2-D thr=0", [C], C + ".centre_of_gravity", lambda: ([img((2, 2))], {}, nn(img((2, 2))) + [z(numpy.sum(img((2, 2))).re) > 0]))
     add("centre_of_gravity 2-D thr=0.3", [C], C + ".centre_of_gravity", lambda: ([img((2, 2))], dict(threshold=Fr(3, 10)), nn(img((2, 2))) + [z(numpy.sum(img((2, 2))).re) > 0]))
@@ -58,6 +58,14 @@ def specs(tier):
     add("brightest_pixel 2-D", [C], C + ".brightest_pixel", lambda: ([img((1, 2)), half], {}, pos(img((1, 2)))))
     add("brightest_pixel stack", [C], C + ".brightest_pixel", lambda: ([img((2, 1, 2)), half], {}, pos(img((2, 1, 2)))))
     add("cross_correlate", [C], C + ".cross_correlate", lambda: ([img((2, 2)), img((2, 2), "r")], dict(padding=1), []))
+    # "in any order relative to other calls": the same call before and after OTHER calls (here: a larger frame padded to
+    # the same transform size - a kept work buffer would carry its contents over)
+    add("cross_correlate 1x1 pad=4 around a 2x2 pad=2 call", [C], C + ".cross_correlate", lambda: ([img((1, 1)), img((1, 1), "r")], dict(padding=4), []),
+        history=lambda: [(C + ".cross_correlate", [img((2, 2), "h"), img((2, 2), "g")], dict(padding=2))])
+    add("correlation_centroid 1x2 pad=2 around a 2x4 pad=1 and a 1x4 call", [C], C + ".correlation_centroid",
+        lambda: ([img((1, 2)), img((1, 2), "r")], dict(padding=2), pos(img((1, 2))) + pos(img((1, 2), "r")) + [z(img((1, 2))[0, 0].re) > z(img((1, 2))[0, 1].re), z(img((1, 2), "r")[0, 0].re) > z(img((1, 2), "r")[0, 1].re)]),
+        history=lambda: [(C + ".cross_correlate", [img((2, 4), "h"), img((2, 4), "g")], dict(padding=1)),
+                         (C + ".cross_correlate", [img((1, 4), "h"), img((1, 4), "g")], dict(padding=1))])
     add("correlation_centroid 2-D", [C], C + ".correlation_centroid", lambda: ([img((1, 2)), img((1, 2), "r")], dict(padding=2), pos(img((1, 2))) + pos(img((1, 2), "r")) + [z(img((1, 2))[0, 0].re) > z(img((1, 2))[0, 1].re), z(img((1, 2), "r")[0, 0].re) > z(img((1, 2), "r")[0, 1].re)]))
     add("correlation_centroid stack", [C], C + ".correlation_centroid", lambda: ([img((2, 1, 2)), img((1, 2), "r")], dict(padding=2), pos(img((2, 1, 2))) + pos(img((1, 2), "r")) + [z(img((1, 2), "r")[0, 0].re) > z(img((1, 2), "r")[0, 1].re)] + [z(img((2, 1, 2))[f, 0, 0].re) > z(img((2, 1, 2))[f, 0, 1].re) for f in range(2)]))
     add("quadCell", [C], C + ".quadCell", lambda: ([img((2, 2, 2))], {}, []), batch="first")
@@ -300,6 +308,16 @@ def replay_spec(name, values):
         diff = not numpy.array_equal(r1, r2)
         return changed or diff, dict(what="CovarianceMatrix: arguments modified=%s, rebuild differs=%s" % (changed, diff))
     fn = _resolve(sp["fn"])
+    hist_bad = False
+    if sp.get("history"):
+        r0 = deep_copy(fn(*deep_copy(args), **deep_copy(kwargs)))
+        for hf, ha, hk in sp["history"]():
+            ca = [(numpy.random.RandomState(7).random_sample(a.shape) + 0.5) if isinstance(a, numpy.ndarray) else a for a in ha]
+            _resolve(hf)(*ca, **hk)
+        hist_bad = not _res_close(r0, fn(*deep_copy(args), **deep_copy(kwargs)))
+        if hist_bad:
+            return True, dict(what="%s: the result differs after other calls (frames of other sizes in between)" % name,
+                              arguments=[numpy.asarray(a).tolist() if isinstance(a, numpy.ndarray) else repr(a) for a in args])
     a1 = deep_copy(args)
     k1 = deep_copy(kwargs)
     r1 = fn(*a1, **k1)
@@ -437,16 +455,24 @@ def case_spec(ctx, name):
     ctx.encoded(fn)
     args, kwargs, pre = sp["build"]()
     ctx.bounds.update(arguments=[("array%s" % (a.shape,) if isinstance(a, numpy.ndarray) else str(a)) for a in args], kwargs={k: str(v) for k, v in kwargs.items()})
+    hist = sp["history"]() if sp.get("history") else None
+    if hist:
+        ctx.bounds["history"] = ["%s(%s)" % (hf.split(".")[-1], ", ".join(["array%s" % (a.shape,) for a in ha] + ["%s=%s" % kv for kv in hk.items()])) for hf, ha, hk in hist]
 
     def go():
         with npx.symbolic(*mods):
+            r0 = None
+            if hist:
+                r0 = deep_copy(fn(*deep_copy(args), **deep_copy(kwargs)))
+                for hf, ha, hk in hist:
+                    _resolve(hf)(*deep_copy(ha), **deep_copy(hk))
             a1, k1 = deep_copy(args), deep_copy(kwargs)
             snap = snapshot((a1, k1))
             r1 = fn(*a1, **k1)
             after = [(p, a, a.shape, [e for e in a.flat], str(a.dtype)) for p, a in arrays_in((a1, k1))]
             r1c = deep_copy(r1)
             if sp["light"]:
-                return snap, after, r1c, None, None, False, None, None
+                return snap, after, r1c, None, None, False, None, None, r0
             r2 = fn(*deep_copy(args), **deep_copy(kwargs))
             r2c = deep_copy(r2)
             alias = any(x is y for x in _objs(r1) for y in _objs(r2))
@@ -459,7 +485,7 @@ def case_spec(ctx, name):
                 a5, k5 = deep_copy(a1), deep_copy(k1)
                 r4 = deep_copy(fn(*a1, **k1))
                 r5 = fn(*a5, **k5)
-            return snap, after, r1c, r2c, r3, alias, r4, r5
+            return snap, after, r1c, r2c, r3, alias, r4, r5, r0
     paths, ex = core.run_paths(go, pre, max_paths=20000)
     ctx.explored(ex, len(paths))
     vnames = set()
@@ -481,7 +507,10 @@ def case_spec(ctx, name):
             # an exception is not a purity question; recorded but not an obligation
             ctx.assume("%s: path raising %s not examined" % (name, type(p.exc).__name__))
             continue
-        snap, after, r1, r2, r3, alias, r4, r5 = p.out
+        snap, after, r1, r2, r3, alias, r4, r5, r0 = p.out
+        if r0 is not None:
+            ctx.prove("path%d: the call returns the same before and after other calls (symbolic frames of other sizes in between)" % pi, hyp,
+                      res_equal_goal(r0, r1), replay=rp_args, timeout_ms=20000)
         g = []
         for (pa, arr, shp, elems, dt), (pb, arr2, shp2, elems2, dt2) in zip(snap, after):
             if shp != shp2 or dt != dt2 or len(elems) != len(elems2):
